@@ -1695,15 +1695,37 @@ def progress(c, facts, b, g, mfacts):
                     finite.append("%s: for over a caller-supplied %s, unreachable from hand-written code" % (pth, ty))
                 elif re.match(r"^\w+/#\d+$", ty):
                     # the iterator is a type parameter of the function: as finite as what the crate's own call sites pass for it
-                    sites = [(q, cl2) for q, bd2 in mfacts.bodies.items() for cl2 in bd2["calls"] if (cl2.get("resolved") or cl2["callee"]) == pth or cl2["callee"] == pth]
-                    bad_sites = []
-                    for q, cl2 in sites:
-                        gs = F.split_generics(cl2["generics"][1:-1]) if cl2["generics"].startswith("[") else [cl2["generics"]]
-                        gs = [x.strip().lstrip("&").replace("'{erased} ", "").strip() for x in gs if x.strip() and not x.strip().startswith("'")]
-                        if not gs or not any(finite_iterable(x) for x in gs) or any(("iter::" in x or "Iterator" in x) and not finite_iterable(x) for x in gs):
-                            bad_sites.append("%s passes %s" % (q, gs))
-                    if sites and not bad_sites:
-                        finite.append("%s: for over the type parameter %s, instantiated at its %d call site(s) with finite collections only" % (pth, ty, len(sites)))
+                    # (a FromIterator / Extend impl is reached through std's `collect` / `extend`: those calls are its sites)
+                    def sites_finite(fn_path, depth=0):
+                        if depth > 3:
+                            return False, ["instantiation chain too deep"]
+                        sites = [(q, cl2) for q, bd2 in mfacts.bodies.items() for cl2 in bd2["calls"] if (cl2.get("resolved") or cl2["callee"]) == fn_path or cl2["callee"] == fn_path]
+                        mt = re.match(r"^<(.+) as (?:std::iter::|core::iter::)?(FromIterator|Extend)<.*>>::(from_iter|extend)$", fn_path)
+                        if mt:
+                            tname = mt.group(1)
+                            std_name = "Iterator::collect" if mt.group(2) == "FromIterator" else "Extend::extend"
+                            sites += [(q, cl2) for q, bd2 in mfacts.bodies.items() for cl2 in bd2["calls"] if std_name in cl2["callee"] and tname in cl2["generics"] and (q, cl2) not in sites]
+                        bad_ = []
+                        for q, cl2 in sites:
+                            gs = F.split_generics(cl2["generics"][1:-1]) if cl2["generics"].startswith("[") else [cl2["generics"]]
+                            gs = [x.strip().lstrip("&").replace("'{erased} ", "").strip() for x in gs if x.strip() and not x.strip().startswith("'")]
+                            gs = [x for x in gs if not (mt and x == mt.group(1))]
+                            params_ = [x for x in gs if re.match(r"^\w+/#\d+$", x)]
+                            if params_:
+                                # handed on from the caller's own type parameter: the caller's sites decide
+                                ok_, why_ = sites_finite(q, depth + 1)
+                                if not ok_:
+                                    bad_.append("%s hands on its own parameter (%s)" % (q, "; ".join(why_)[:120]))
+                                continue
+                            if not gs or not any(finite_iterable(x) for x in gs) or any(("iter::" in x or "Iterator" in x) and not finite_iterable(x) for x in gs):
+                                bad_.append("%s passes %s" % (q, gs))
+                        if not sites:
+                            bad_.append("no call site of %s in the crate" % fn_path)
+                        return not bad_, bad_
+
+                    ok_s, bad_sites = sites_finite(pth)
+                    if ok_s:
+                        finite.append("%s: for over the type parameter %s, instantiated at its call sites with finite collections only" % (pth, ty))
                     else:
                         loops.append("%s: for over %s (not a known finite iterable)%s" % (pth, ty[:100], ("; " + "; ".join(bad_sites[:2])) if bad_sites else ""))
                 else:
